@@ -166,4 +166,47 @@ theorem inward_nested (xml : Bool) (pos : Int) (s : Str) (special : List (Str ×
   have hsorted := (goodRev_sorted s acc' s.length hgood).1
   rw [← hscan] at hsorted
   exact inward_nested_acc xml pos (scan s special) [] hsorted (by simp) List.Pairwise.nil
+-- (appended) first entry of balanced_inward contains the position
+/-- the first entry of `balanced_inward` is the element at the position (its range contains the position; the ends count for a pair) -/
+theorem inward_head_contains (xml : Bool) (pos : Int) : ∀ (evs : List Ev) (stack : List ITag) (m : Matched),
+    (inwardLoop xml pos evs stack).head? = some m → (m.start : Int) ≤ pos ∧ pos ≤ (m.stop : Int) := by
+  intro evs
+  induction evs with
+  | nil => intro stack m h; simp [inwardLoop] at h
+  | cons ev evs ih =>
+    intro stack m h
+    unfold inwardLoop at h
+    by_cases hc : (ev.type == .close) = true
+    · simp only [hc, if_true] at h
+      cases stack with
+      | nil => exact ih [] m h
+      | cons tag rest =>
+        simp only at h
+        by_cases hn : (tag.tag.name == ev.name) = true
+        · simp only [hn, if_true] at h
+          by_cases hp : ((tag.tag.openR.1 : Int) ≤ pos && pos ≤ ev.stop) = true
+          · simp only [hp, if_true, List.head?_cons, Option.some.injEq] at h
+            subst h
+            simp only [Bool.and_eq_true, decide_eq_true_eq] at hp
+            exact hp
+          · simp only [hp] at h
+            cases rest with
+            | nil => exact ih [] m h
+            | cons parent rest' => exact ih _ m h
+        · simp only [hn] at h; exact ih _ m h
+    · have hc' : (ev.type == .close) = false := by simpa using hc
+      simp only [hc', Bool.false_eq_true, if_false] at h
+      by_cases hsc : (ev.type == .selfClose || isSelfClose ev.name xml) = true
+      · simp only [hsc, if_true] at h
+        by_cases hp : ((ev.start : Int) < pos && pos < ev.stop) = true
+        · simp only [hp, if_true, List.head?_cons, Option.some.injEq] at h
+          subst h
+          simp only [Bool.and_eq_true, decide_eq_true_eq] at hp
+          exact ⟨by show (ev.start : Int) ≤ pos; omega, by show pos ≤ (ev.stop : Int); omega⟩
+        · simp only [hp] at h
+          cases stack with
+          | nil => exact ih [] m h
+          | cons parent rest => exact ih _ m h
+      · simp only [hsc] at h; exact ih _ m h
+
 end H
